@@ -16,7 +16,9 @@
 (*   Cancel                           harness cancelled the caller's ctx   *)
 (*   Return(res)                      Exec returned (observed)             *)
 (* "early": TRUE on an event means it was logged well before the threshold *)
-(* could elapse, i.e. the timer had not fired yet.                         *)
+(* could elapse, i.e. the timer had not fired yet.  "pre"/"late": logged   *)
+(* certainly before / certainly after the threshold (see Late below): the  *)
+(* threshold is counted from the start of the call.                        *)
 (* Silent: PrimSignal PrimSend SecSend TimerFire DeadlineFire CallerRecv   *)
 (* CallerCtx.  The C20 invariants are conjoined to every step, so a trace  *)
 (* is accepted iff SOME behaviour of the spec explains it and satisfies    *)
@@ -24,23 +26,31 @@
 (***************************************************************************)
 EXTENDS Fallback, IOUtils
 
-VARIABLE l
+VARIABLES l,
+          urgent   \* trace-only: the secondary sits in a select it entered before the threshold
+                   \* elapsed, so it must have left it once the threshold has certainly elapsed
 
 Trace == ndJsonDeserialize(IOEnv.TRACE_FILE)
 
-tvars == <<vars, l>>
+tvars == <<vars, l, urgent>>
 
 Ev == Trace[l]
 IsEvent(e) == l <= Len(Trace) /\ Ev.ev = e /\ l' = l + 1
 Early == ("early" \in DOMAIN Ev /\ Ev.early) => ~timerFired
+Flag(f) == f \in DOMAIN Ev /\ Ev[f]
+\* "late": logged when threshold + slack has certainly elapsed since the call started (real time,
+\* only claimed for runs whose secondary was never held before it created its timer).  By then the
+\* timer has fired and a secondary that entered its select before the threshold has left it.
+Late == Flag("late") => (timerFired /\ ~urgent)
 
 TraceInit ==
-    /\ l = 1
+    /\ l = 1 /\ urgent = FALSE
     /\ Init
 
 \* a new call: everything back to the initial values given by the Start line
 Reset ==
     /\ IsEvent("Start")
+    /\ urgent' = ~Ev.standby     \* without always_standby the secondary waits in its first select from the start
     /\ order' \in Orders
     /\ standby' = Ev.standby /\ timerMay' = Ev.timerMay
     /\ ppc' = "exec" /\ pout' = "na"
@@ -52,22 +62,25 @@ Reset ==
     /\ hist' = <<>>
 
 Logged ==
-    \/ IsEvent("PrimFinish") /\ Early /\ PrimFinish(Ev.o)
-    \/ IsEvent("SecFinish") /\ Early /\ SecFinish(Ev.o)
-    \/ IsEvent("PrimSignalled") /\ Early /\ (primDone \/ primFailed) /\ UNCHANGED vars
-    \/ IsEvent("PrimQueued") /\ Early /\ UNCHANGED vars
+    \/ IsEvent("PrimFinish") /\ Early /\ Late /\ PrimFinish(Ev.o) /\ UNCHANGED urgent
+    \/ IsEvent("SecFinish") /\ Early /\ Late /\ SecFinish(Ev.o)
+         /\ urgent' = (standby /\ Ev.o = "ans" /\ Flag("pre"))
+    \/ IsEvent("PrimSignalled") /\ Early /\ Late /\ UNCHANGED <<vars, urgent>>
+         /\ IF "k" \in DOMAIN Ev THEN (IF Ev.k = "done" THEN primDone ELSE primFailed)
+                                 ELSE (primDone \/ primFailed)
+    \/ IsEvent("PrimQueued") /\ Early /\ Late /\ UNCHANGED <<vars, urgent>>
          /\ \/ EffOrder = "queue_first" /\ ppc \in {"half", "done"}
             \/ EffOrder = "signal_first" /\ ppc = "done"
-    \/ IsEvent("SecQueued") /\ Early /\ spc = "end" /\ sout # "na" /\ UNCHANGED vars
-    \/ IsEvent("SecWaitWake") /\ Early /\ SecWaitWake(Ev.r)
-    \/ IsEvent("SecStandbyWake") /\ Early /\ SecStandbyWake(Ev.r)
-    \/ IsEvent("SecExecStart") /\ Early /\ SecExecStart
-    \/ IsEvent("Cancel") /\ Cancel
-    \/ IsEvent("Return") /\ cpc = "done" /\ result = Ev.res /\ UNCHANGED vars
+    \/ IsEvent("SecQueued") /\ Early /\ Late /\ spc = "end" /\ sout # "na" /\ UNCHANGED <<vars, urgent>>
+    \/ IsEvent("SecWaitWake") /\ Early /\ Late /\ SecWaitWake(Ev.r) /\ urgent' = FALSE
+    \/ IsEvent("SecStandbyWake") /\ Early /\ Late /\ SecStandbyWake(Ev.r) /\ urgent' = FALSE
+    \/ IsEvent("SecExecStart") /\ Early /\ Late /\ SecExecStart /\ UNCHANGED urgent
+    \/ IsEvent("Cancel") /\ Cancel /\ UNCHANGED urgent
+    \/ IsEvent("Return") /\ cpc = "done" /\ result = Ev.res /\ UNCHANGED <<vars, urgent>>
 
 Silent ==
     /\ l <= Len(Trace)
-    /\ UNCHANGED l
+    /\ UNCHANGED <<l, urgent>>
     /\ \/ PrimSignal \/ PrimSend \/ SecSend \/ TimerFire \/ DeadlineFire \/ CallerRecv \/ CallerCtx
 
 TraceNext == (Reset \/ Logged \/ Silent) /\ C20Inv'
